@@ -76,8 +76,6 @@ func runDev(args []string) (int, error) {
 	return 0, nil
 }
 
-
-
 func init() {
 	devCmds["clean1"] = func(c *CheckCtx) error {
 		g := newFgen(c.Seed*31+5, "m")
